@@ -618,7 +618,7 @@ func runGrpcDirect(m map[string]string) string {
 // (other checks run on the same machine): an engine run that did not end, a dial / TLS-handshake / response timeout
 // without a silent target, a client-side gRPC Unavailable / DeadlineExceeded, exhausted ports or descriptors.
 func suspicious(m map[string]string, input, obs string) bool {
-	if m["k"] == "errno" || m["k"] == "idstress" {
+	if m["k"] == "errno" || m["k"] == "idstress" || m["k"] == "shootstress" {
 		return false // no network, no engine
 	}
 	if strings.Contains(obs, "res=hang") || strings.Contains(obs, "errno99") || strings.Contains(obs, "errno24") ||
@@ -684,6 +684,8 @@ func run0(m map[string]string) string {
 		return runIds(m)
 	case "idstress":
 		return runIDStress(m)
+	case "shootstress":
+		return runShootStress(m)
 	case "errno":
 		return runErrno(m)
 	case "inv":
@@ -1266,6 +1268,12 @@ func gen(r *rand.Rand, tier string) []string {
 	for i := 0; i < pick(2, 12); i++ {
 		out = append(out, fmt.Sprintf("k=idstress g=%d n=%d", []int{16, 4, 64, 2, 32, 8}[i%6], pick(60000, 250000)))
 	}
+	// 9b. Shoot itself at CPU speed (stub client): g instances x n shots cycling through a few paths, auto-tag on
+	for i := 0; i < pick(3, 12); i++ {
+		g := []int{16, 32, 4, 64, 8, 2}[i%6]
+		out = append(out, fmt.Sprintf("k=shootstress g=%d n=%d paths=%d auto=1 el=%d nto=%d", g, pick(320000, 640000)/g,
+			[]int{35, 6, 120}[i%3], 1+i%3, i%2))
+	}
 	if thorough {
 		out = append(out, "k=ids prov=uri inst=32 n=4000", "k=ids prov=uri inst=1 n=50", "k=ids prov=uri inst=128 n=3000", "k=ids prov=uripost inst=64 n=3000 pre=1")
 	}
@@ -1351,7 +1359,7 @@ func class(input, obs string) string {
 		} else {
 			c += ":errno"
 		}
-	case "idstress":
+	case "idstress", "shootstress":
 		c += ":g" + m["g"]
 	case "ids":
 		c += ":" + m["prov"]
